@@ -97,6 +97,12 @@ CHECKS = {
                      "blocks after teardown). The core alphabet (21 ops incl. capacity-crossing start states and colliding crystal files) is explored to closure, so "
                      "the result holds for histories of any length over it; wider alphabets and the built-in collection at its fixed capacity are depth bounded.",
                 note="Finite name and file alphabets; closure is relative to them. ReadFile is read as all-or-nothing. UBSan's nonnull-attribute check is disabled (bsearch on an empty array)."),
+    "C15": dict(level="exploration", engine="ENUM", ref="4/C15",
+                technique="exhaustive enumeration of every catalogue entry in every addressing mode, plus all 3! release orders of deep copies under leak accounting and ASan",
+                text="All 107 symbols, 180 NIST compounds, 10 radionuclides and 38 crystals are addressed by name, by index (incl. out of range), by every published "
+                     "index macro and through the name lists; every entry's well-formedness conditions are evaluated; for every entry three copies are fetched, one "
+                     "is scribbled over, the others and a fresh fetch compared, and all are released in every order in a leak-accounting and an ASan build.",
+                note="Finite catalogues: the enumeration is complete. Macro names are bound to entry names by their alphanumeric skeleton."),
 }
 NOT_YET = {}
 ALL = ["C%02d" % i for i in range(1, 21)]
